@@ -406,3 +406,107 @@ class FlowTaint:
                     any(self._expr(a, tainted) for a in c.args):
                 tainted.add(c.func.value.id)
         return tainted
+
+
+# ---------------------------------------------------------------------------
+# small forward evaluator for string-valued selectors
+# ---------------------------------------------------------------------------
+def value_at(func, target, env):
+    """Value of expression `target` (a node inside `func`) when the names in
+    `env` start with the given constant values: assignments of constants /
+    names / conditional expressions are followed in statement order, `if`
+    tests comparing such names with constants are decided, other tests are
+    entered when they contain the target.  None when not evaluable."""
+    env = dict(env)
+
+    def ev(e):
+        if e is None:
+            return None
+        if isinstance(e, ast.Constant):
+            return e.value
+        if isinstance(e, ast.Name):
+            return env.get(e.id)
+        if isinstance(e, ast.IfExp):
+            t = truth(e.test)
+            if t is None:
+                return None
+            return ev(e.body if t else e.orelse)
+        return None
+
+    def truth(t):
+        if isinstance(t, ast.UnaryOp) and isinstance(t.op, ast.Not):
+            r = truth(t.operand)
+            return None if r is None else not r
+        if isinstance(t, ast.Name) and t.id in env and isinstance(
+                env[t.id], bool):
+            return env[t.id]
+        if isinstance(t, ast.Compare) and len(t.ops) == 1:
+            l, r = ev(t.left), None
+            c = t.comparators[0]
+            if isinstance(c, (ast.Tuple, ast.List, ast.Set)):
+                vals = [ev(x) for x in c.elts]
+                r = None if any(v is None for v in vals) else vals
+            else:
+                r = ev(c)
+            if l is None or r is None:
+                return None
+            op = t.ops[0]
+            try:
+                if isinstance(op, (ast.Eq, ast.Is)):
+                    return l == r
+                if isinstance(op, (ast.NotEq, ast.IsNot)):
+                    return l != r
+                if isinstance(op, ast.In):
+                    return l in r
+                if isinstance(op, ast.NotIn):
+                    return l not in r
+            except Exception:
+                return None
+        return None
+
+    def contains(st):
+        return any(x is target for x in ast.walk(st))
+
+    def run(body):
+        for st in body:
+            if isinstance(st, (ast.FunctionDef, ast.ClassDef)):
+                continue
+            if isinstance(st, ast.If):
+                t = truth(st.test)
+                if t is None:
+                    if contains(st):
+                        for blk in (st.body, st.orelse):
+                            if any(contains(x) for x in blk):
+                                return run(blk)
+                        return ev(target), True
+                    # a branch not decided: forget what it assigns
+                    for x in ast.walk(st):
+                        if isinstance(x, ast.Assign):
+                            for t_ in x.targets:
+                                if isinstance(t_, ast.Name):
+                                    env.pop(t_.id, None)
+                    continue
+                r = run(st.body if t else st.orelse)
+                if r[1]:
+                    return r
+                continue
+            if contains(st) and not isinstance(
+                    st, (ast.For, ast.While, ast.With, ast.Try)):
+                return ev(target), True
+            if isinstance(st, ast.Assign) and len(st.targets) == 1 and \
+                    isinstance(st.targets[0], ast.Name):
+                v = ev(st.value)
+                if v is None:
+                    env.pop(st.targets[0].id, None)
+                else:
+                    env[st.targets[0].id] = v
+                continue
+            if isinstance(st, (ast.For, ast.While, ast.With, ast.Try)):
+                if contains(st):
+                    for fld in ('body', 'orelse', 'finalbody'):
+                        blk = getattr(st, fld, None) or []
+                        if any(contains(x) for x in blk):
+                            return run(blk)
+                    return ev(target), True
+        return None, False
+    return run(func.body)[0]
